@@ -6,6 +6,11 @@ ROOT = os.path.dirname(os.path.dirname(os.path.abspath(__file__)))
 
 # id -> (category, technique, level text, level note, design ref)
 CLAIMED = {
+    "C03": ("exploration",
+            "round-trip PBT: independent lossless Modular *encoder* (all predictors incl. weighted, MA trees, RCT/palette/squeeze, groups/passes, every entropy form) -> jxl-oxide decode; exact integer sample equality",
+            "Generated-input search over images and over every encoder choice the Modular format allows; the reference encoder derives residuals by running the specified prediction and context modelling on the true image, so any tree/predictor/transform combination is valid by construction and the decoder must reproduce every sample exactly (default and forced-wide buffers).",
+            "Trusted: jxlref::modular (my reading of ISO/IEC 18181-1 Annex H, cross-checked by forward/inverse self-tests of the reference transforms). Regions excluded by construction are listed in the evidence assumptions.",
+            "DESIGN.md §4 C03"),
     "C04": ("exploration",
             "round-trip PBT: independent entropy *encoder* (prefix + rANS + LZ77 + cluster maps + Lehmer permutations) with generated code descriptions -> jxl_coding::Decoder; exact values, exact bit count, final-state check; negative cases",
             "Generated-input search over code descriptions (every histogram header form, integer configs, clusterings, LZ77 parameters) and symbol sequences; the decoder must return exactly the encoded sequence, consume exactly the written bits and accept the final ANS state; wrong final states and cluster holes must be rejected.",
